@@ -490,6 +490,12 @@ type litCtx struct {
 	pre  []string
 	n    int
 	open int // blocks the setup left open (loop origin): closed at the end of the program
+	// fns: top-level helper functions (fresh origin: the construction of the receiver lives in a
+	// function that the program calls once per product)
+	fns []string
+	// tail: statements that follow the observed operation and its probes (fresh origin: one more
+	// product of the same construction, probed last)
+	tail []string
 }
 
 func strLit(s string) string {
@@ -620,6 +626,14 @@ func (c *litCtx) litAt(v rv, t ast.Type, lvl int) string {
 			in = ot.Inner
 		}
 		return "?" + c.litAt(*v.O, in, lvl+1)
+	case "anyobj":
+		// an any-object below the top of a literal: an object literal cast to { ? }
+		if len(v.M) == 0 {
+			return "new { ? }"
+		}
+		o := v.clone()
+		o.K = "obj"
+		return "(" + c.litAt(o, typeOfRv(o), 2) + " as { ? })"
 	case "fn":
 		return "fn() -> int { 1 }"
 	}
@@ -1054,8 +1068,14 @@ func modelMember(recv rv, member string, args []rv) expect {
 			}
 			return val(vNone(), same)
 		case "get_type":
-			e := noCrash("the name of a type is not fixed by the property; a missing key may interrupt")
-			return e
+			if x, ok := recv.M[a(0).S]; ok {
+				if name, ok := kindName(x); ok {
+					e := val(vStr(name), same)
+					e.Note = "get_type names the kind of the stored value " + show(x) + " with the analyzer's name for that kind (the kind whose members the value has)"
+					return e
+				}
+			}
+			return noCrash("a missing key may interrupt")
 		case "keys":
 			out := rv{K: "list", L: []rv{}}
 			for _, k := range sortedKeys(recv.M) {
@@ -1116,6 +1136,23 @@ func modelMember(recv rv, member string, args []rv) expect {
 		}
 	}
 	return noCrash("member not in the reference model: only survival and the advertised type are checked")
+}
+
+// kindName is the name get_type has to report for a stored value: the analyzer's own name
+// (ast.TypeKind.String(), read from the real analyzer) of the kind of type whose members the value
+// has. A typed object and an any-object are different kinds: they offer different members.
+func kindName(v rv) (name string, ok bool) {
+	defer func() {
+		if recover() != nil {
+			name, ok = "", false
+		}
+	}()
+	k := typeOfRv(v).Kind()
+	switch k {
+	case ast.UnknownTypeKind, ast.AnyTypeKind, ast.NeverTypeKind:
+		return "", false
+	}
+	return k.String(), true
 }
 
 // modelIndex gives the expected result of recv[idx].
